@@ -26,6 +26,7 @@ func init() {
 		Rule: "mutation of every frame of the valid corpus V (specification encoder; plus CONNECT frames with other protocol names/versions, which parse but are not v5.0; plus frames in which a user property holding non-UTF-8 bytes directly precedes each property the type allows; plus minimal and rich frames under every other flag nibble; plus minimal and rich frames carrying, as their last property, each property MQTT defines but not for that packet type; thorough adds frames with 127/128/255/256/16383/16384-byte strings) driven by the encoder's field map: " +
 			"(a) every cut position strictly inside a two/four-byte integer, a string or binary (prefix or body), a multi-byte variable byte integer, or a property (between identifier and value), with the remaining length rewritten to the shortened size (PUBLISH payload exempt); " +
 			"(b) every variable-byte-integer position (remaining length, property length, subscription identifier) replaced by each 5-byte continuation {80,ff}^4 x {00,01,7f}, enclosing lengths adjusted; (c) every boolean property occurrence x every value 2..255; (d) every property position, will properties included, x all 229 identifiers MQTT v5.0 does not define. " +
+			"Conjunctions: the cuts of (a) inside a property section with the property length shortened too; (b) with runs of 6..40 continuation bytes; (c)/(d) in frames whose property section also ends right after that identifier; (d) with defined identifiers whose top bit is set before each of 16 next bytes. " +
 			"Every mutant is first confirmed to be rejected by the strict specification decoder (otherwise it is skipped and counted); ReadPacket must then return (nil, error) without panicking or exceeding the step budget - when the mutant is read alone from a bytes.Reader, from a bytes.Buffer, and as the second frame of a burst through a bufio.Reader (mutants of the remaining-length field also through a reader of own type with Peek/Discard and the plain scripted reader). distinct_nontrivial = distinct mutants by content hash.",
 		Assumptions: []string{
 			"'boolean property' = the seven properties the API exposes as bool; Maximum QoS (exposed as uint8) is not demanded",
